@@ -295,7 +295,12 @@ class AnnotationDAGBuilder:
             if inspect.iscoroutinefunction(get_callable_run_method(node)):
                 continue
 
-            if NodeTag.process in node.tags:
+            tags = node.tags or ()
+
+            if NodeTag.non_async in tags:
+                continue
+
+            if NodeTag.process in tags:
                 is_process_pool_needed = True
             else:
                 is_thread_pool_needed = True
